@@ -37,3 +37,7 @@ def run(ctx):
     from ..engines import sizecheck as SCC
     SCC.s0_compositions(ctx)
     ctx.floor("S0", 4)
+    # settings reach the strategies / databases under the parameter they are meant for (round 10)
+    from ..engines import jsonpairs as J7E
+    J7E.j7_positional_settings(ctx)
+    ctx.floor("J7", 1)
